@@ -95,6 +95,7 @@ func (ds *AnySource) RunDoneActivate() {
 	defer ds.sourceStateLock.Unlock()
 	ds.sourceState = Active
 	ds.runDone.Add(1)
+	verifSync("wgadd", "rund", &ds.runDone)
 	ds.runDoneChan = make(chan struct{})
 	verifPoint("run.activate")
 }
@@ -105,6 +106,7 @@ func (ds *AnySource) RunDoneDeactivate() {
 	ds.sourceState = Inactive
 	verifPoint("run.deactivate")
 	close(ds.runDoneChan)
+	verifSync("wgdone", "rund", &ds.runDone)
 	ds.runDone.Done()
 	ds.sourceStateLock.Unlock()
 }
@@ -120,6 +122,7 @@ func (ds *AnySource) RunDoneChan() <-chan struct{} {
 // RunDoneWait returns when the source run is done, i.e., the source is stopped
 func (ds *AnySource) RunDoneWait() {
 	ds.runDone.Wait()
+	verifSync("wgwait", "rund", &ds.runDone)
 }
 
 // ShouldAutoRestart true if source should be auto-restarted after an error
@@ -186,6 +189,7 @@ func Start(ds DataSource, queuedRequests chan func(), Npresamp int, Nsamples int
 	}
 
 	verifPoint("start.runStarted")
+	verifSync("spawn", "loop", nil)
 	go CoreLoop(ds, queuedRequests)
 	return nil
 }
@@ -201,6 +205,7 @@ func CoreLoop(ds DataSource, queuedRequests chan func()) {
 			ds.WriteControl(&WriteControlConfig{Request: "STOP"})
 		}
 	}()
+	verifSync("start", "loop", nil)
 	verifPoint("loop.start")
 	nextBlock := ds.getNextBlock()
 
@@ -213,7 +218,9 @@ func CoreLoop(ds DataSource, queuedRequests chan func()) {
 
 		// Handle RPC requests
 		case request := <-queuedRequests:
+			verifSync("recv", "qreq", queuedRequests)
 			verifPoint("loop.gotRequest")
+			verifSync("send", "qres", nil) // every request closure sends exactly one result
 			request()
 			verifPoint("loop.requestDone")
 
@@ -221,16 +228,19 @@ func CoreLoop(ds DataSource, queuedRequests chan func()) {
 		case block, ok := <-nextBlock:
 			if !ok {
 				// nextBlock was closed in the data production loop when abortSelf was closed
+				verifSync("recvc", "nb", nextBlock)
 				verifPoint("loop.gotClosed")
 				log.Println("nextBlock channel was closed; stopping the source normally")
 				return
 
 			} else if block.err != nil {
 				// errors in block indicate a problem with source: need to close down
+				verifSync("recv", "nb", nextBlock)
 				verifPoint("loop.gotError")
 				log.Printf("nextBlock received Error; stopping source: %s\n", block.err.Error())
 				return
 			}
+			verifSync("recv", "nb", nextBlock)
 			verifPoint("loop.gotBlock")
 			if err := ds.ProcessSegments(block); err != nil {
 				verifPoint("loop.processFailed")
@@ -272,6 +282,7 @@ func (ds *AnySource) Stop() error {
 	}
 	ds.sourceState = Stopping
 	verifPoint("stop.switched")
+	verifSync("close", "abort", ds.abortSelf)
 	closeIfOpen(ds.abortSelf)
 	ds.sourceStateLock.Unlock()
 
@@ -279,6 +290,7 @@ func (ds *AnySource) Stop() error {
 	ds.RunDoneWait()
 	verifPoint("stop.waited")
 	ds.groupKeysSorted = make([]GroupIndex, 0)
+	verifAcc("wsa", &ds.writingState, false)
 	if ds.writingState.Active { // if writing, Stop writing
 		wcc := WriteControlConfig{Request: "STOP"}
 		ds.WriteControl(&wcc)
@@ -398,6 +410,7 @@ func (ds *AnySource) getPulseLengths() (int, int, error) {
 }
 
 func (ds *AnySource) archiveNewDataBlock(block *dataBlock) {
+	verifAcc("arch", &ds.archiveBlock, true)
 	ab := &ds.archiveBlock
 	nchan := len(block.segments)
 
@@ -454,6 +467,8 @@ func (ds *AnySource) archiveNewDataBlock(block *dataBlock) {
 		// Hand the filled block over to the goroutine that writes the file, and let go of it here: from
 		// now on that goroutine alone uses it, while this one may already prepare the next request.
 		ab.active = false
+		verifAcc("afill", &ab.segments[0], true)
+		verifSync("send", "cmpl", ab.complete)
 		ab.complete <- ab.dataBlock
 		ab.segments = nil
 		ab.externalTriggerRowcounts = nil
@@ -465,6 +480,7 @@ func (ds *AnySource) archiveNewDataBlock(block *dataBlock) {
 // It's more synchronous than our original plan of each dsp launching its own goroutine.
 func (ds *AnySource) ProcessSegments(block *dataBlock) error {
 	verifPoint("eff.ProcessSegments")
+	verifAcc("blk", block, false)
 	nchan := len(block.segments)
 	nproc := len(ds.processors)
 	if nproc != nchan {
@@ -472,6 +488,7 @@ func (ds *AnySource) ProcessSegments(block *dataBlock) error {
 	}
 
 	// Sometimes the archiveDataBlock is active. Handle it here.
+	verifAcc("arch", &ds.archiveBlock, false)
 	if ds.archiveBlock.active {
 		ds.archiveNewDataBlock(block)
 	}
@@ -484,22 +501,31 @@ func (ds *AnySource) ProcessSegments(block *dataBlock) error {
 	// Use a WaitGroup to make all finish before secondary triggers can be computed.
 	var wg sync.WaitGroup
 	for idx, dsp := range ds.processors {
+		verifAcc("seg", &block.segments[idx], false)
 		segment := block.segments[idx]
 		wg.Add(1)
+		verifSync("wgadd", "wgp", &wg)
+		verifSync("spawn", "w1", dsp)
 		go func(dsp *DataStreamProcessor) {
 			defer wg.Done()
+			defer verifSync("wgdone", "wgp", &wg)
+			verifSync("start", "w1", dsp)
 			dsp.processSegment(&segment)
 		}(dsp)
 	}
 	wg.Wait()
+	verifSync("wgwait", "wgp", &wg)
 
 	// Build a map to hold triggerList for each channel index, and then ask the TriggerBroker
 	// to compute the corresponding slice of secondary trigger FrameIndex values for each
 	// channel index.
 	allchanTrigList := make(map[int]triggerList)
 	for idx, dsp := range ds.processors {
+		verifAcc("pst", dsp, false)
 		allchanTrigList[idx] = dsp.lastTrigList
 	}
+	verifAcc("bcon", ds.broker, false)
+	verifAcc("bst", ds.broker, true)
 	allSecondaries, err := ds.broker.Distribute(allchanTrigList)
 	if err != nil {
 		return err
@@ -512,14 +538,19 @@ func (ds *AnySource) ProcessSegments(block *dataBlock) error {
 			flist := allSecondaries[idx]
 			if len(flist) > 0 {
 				wg.Add(1)
+				verifSync("wgadd", "wgp", &wg)
+				verifSync("spawn", "w2", dsp)
 				go func(dsp *DataStreamProcessor, flist []FrameIndex) {
 					defer wg.Done()
+					defer verifSync("wgdone", "wgp", &wg)
+					verifSync("start", "w2", dsp)
 					dsp.processSecondaries(flist)
 				}(dsp, flist)
 			}
 		}
 	}
 	wg.Wait()
+	verifSync("wgwait", "wgp", &wg)
 
 	// Clean up: mark the data segments as processed, trim the streams of data we no longer need,
 	// and once every 20 reads, flush the output files (but do the files out of phase, so it's not
@@ -528,6 +559,7 @@ func (ds *AnySource) ProcessSegments(block *dataBlock) error {
 	for idx, dsp := range ds.processors {
 		segment := block.segments[idx]
 		segment.processed = true
+		verifAcc("pst", dsp, true)
 		dsp.TrimStream()
 
 		if (idx+ds.readCounter)%20 == 0 {
@@ -544,6 +576,8 @@ func (ds *AnySource) ProcessSegments(block *dataBlock) error {
 	for i, dsp := range ds.processors {
 		numberWritten[i] = dsp.numberWritten
 	}
+	verifAcc("wsa", &ds.writingState, false)
+	verifAcc("wsc", &ds.writingState, true)
 	if err := ds.HandleExternalTriggers(block.externalTriggerRowcounts); err != nil {
 		return err
 	}
@@ -705,6 +739,10 @@ func makeDirectory(basepath string) (string, error) {
 // For (WriteOFF == true), only chanels with projectors set will have writing enabled
 func (ds *AnySource) WriteControl(config *WriteControlConfig) error {
 	verifPoint("eff.WriteControl")
+	verifAcc("wsc", &ds.writingState, true)
+	for _, dsp := range ds.processors {
+		verifAcc("pst", dsp, true)
+	}
 	requestStr := strings.ToUpper(config.Request)
 	switch {
 	case strings.HasPrefix(requestStr, "PAUSE"):
@@ -860,6 +898,7 @@ func (ds *AnySource) ConfigureProjectorsBases(channelIndex int, projectors *mat.
 		return fmt.Errorf("channelIndex out of range, channelIndex=%v, len(ds.processors)=%v", channelIndex, len(ds.processors))
 	}
 	dsp := ds.processors[channelIndex]
+	verifAcc("pst", dsp, true)
 	return dsp.SetProjectorsBasis(projectors, basis, modelDescription)
 }
 
@@ -868,6 +907,7 @@ func (ds *AnySource) ChannelsWithProjectors() []int {
 	result := make([]int, 0)
 	for channelIndex := 0; channelIndex < len(ds.processors); channelIndex++ {
 		dsp := ds.processors[channelIndex]
+		verifAcc("pst", dsp, false)
 		if dsp.HasProjectors() {
 			result = append(result, channelIndex)
 		}
@@ -979,7 +1019,10 @@ func (ds *AnySource) PrepareRun(Npresamples int, Nsamples int) error {
 	// Load last trigger state from config file
 	var fts []FullTriggerState
 	configLock.Lock()
+	verifSync("lock", "cfg", &configLock)
+	verifAcc("vip", &configLock, false)
 	err := viper.UnmarshalKey("trigger", &fts)
+	verifSync("unlock", "cfg", &configLock)
 	configLock.Unlock()
 	if err != nil {
 		// could not read trigger state from config file.
@@ -1042,6 +1085,7 @@ func (ds *AnySource) PrepareRun(Npresamples int, Nsamples int) error {
 
 // ComputeGroupTriggerState returns the current `GroupTriggerState`.
 func (ds *AnySource) ComputeGroupTriggerState() GroupTriggerState {
+	verifAcc("bcon", ds.broker, false)
 	return ds.broker.computeGroupTriggerState()
 }
 
@@ -1057,6 +1101,7 @@ func (ds *AnySource) ComputeFullTriggerState() []FullTriggerState {
 
 	result := make(map[TriggerState][]int)
 	for _, dsp := range ds.processors {
+		verifAcc("ptrig", dsp, false)
 		chans, ok := result[dsp.TriggerState]
 		if ok {
 			result[dsp.TriggerState] = append(chans, dsp.channelIndex)
@@ -1086,6 +1131,8 @@ func (ds *AnySource) ChangeTriggerState(state *FullTriggerState) error {
 	}
 	for _, channelIndex := range state.ChannelIndices {
 		dsp := ds.processors[channelIndex]
+		verifAcc("ptrig", dsp, true)
+		verifAcc("pst", dsp, true)
 		if err := dsp.ConfigureTrigger(state.TriggerState); err != nil {
 			return err
 		}
@@ -1107,11 +1154,14 @@ func (ds *AnySource) ConfigurePulseLengths(nsamp, npre int) error {
 		return fmt.Errorf("ConfigurePulseLengths nsamp %v, npre %v are invalid", nsamp, npre)
 	}
 	for _, dsp := range ds.processors { // reject before changing any channel
+		verifAcc("pst", dsp, false)
 		if err := dsp.checkPulseLengths(nsamp, npre); err != nil {
 			return err
 		}
 	}
 	for _, dsp := range ds.processors {
+		verifAcc("ptrig", dsp, true)
+		verifAcc("pst", dsp, true)
 		if err := dsp.ConfigurePulseLengths(nsamp, npre); err != nil {
 			return err
 		}
@@ -1133,6 +1183,7 @@ func (ds *AnySource) SetCoupling(status CouplingStatus) error {
 // otherwise delete).
 func (ds *AnySource) ChangeGroupTrigger(turnon bool, gts *GroupTriggerState) error {
 	verifPoint("eff.ChangeGroupTrigger")
+	verifAcc("bcon", ds.broker, true)
 	// changer is either the Add or Delete function, depending on turnon
 	changer := ds.broker.DeleteConnection
 	if turnon {
@@ -1149,6 +1200,7 @@ func (ds *AnySource) ChangeGroupTrigger(turnon bool, gts *GroupTriggerState) err
 // StopTriggerCoupling turns off all trigger coupling, including all group triggers and FB/Err coupling.
 func (ds *AnySource) StopTriggerCoupling() error {
 	verifPoint("eff.StopTriggerCoupling")
+	verifAcc("bcon", ds.broker, true)
 	return ds.broker.StopTriggerCoupling()
 }
 
@@ -1179,6 +1231,7 @@ func (ds *AnySource) writeNPZData(file *os.File, ab *dataBlock, channelNames []s
 // to the numpy-style npz file `file`. Finally, it closes that file and renames it to `finalName`.
 func (ds *AnySource) ArchiveDataBlock(N int, file *os.File, finalName string) error {
 	verifPoint("eff.ArchiveDataBlock")
+	verifAcc("arch", &ds.archiveBlock, true)
 	if ds.archiveBlock.active {
 		return fmt.Errorf("cannot start archive block, because one is already being acquired")
 	}
@@ -1196,9 +1249,13 @@ func (ds *AnySource) ArchiveDataBlock(N int, file *os.File, finalName string) er
 
 	// Launch this goroutine, which will execute when the filled block arrives on the complete channel.
 	// It uses only what it is handed here: ds.archiveBlock belongs to the core loop.
+	verifSync("spawn", "arw", complete)
 	go func() {
+		verifSync("start", "arw", complete)
 		// When the archiveBlock is filled, write to npz file.
 		filled := <-complete
+		verifSync("recv", "cmpl", complete)
+		verifAcc("afill", &filled.segments[0], false)
 		if err := ds.writeNPZData(file, &filled, channelNames); err != nil {
 			file.Close()
 		}
